@@ -209,6 +209,17 @@ def _audit(pid, allowed_extra=()):
     if rc != 0:
         res['problems'].append('audit failed: ' + out[-1500:])
         return res
+    if os.environ.get('VERIF_TIER_NOW') == 'thorough':
+        # independent re-check of the compiled declarations by the toolchain's leanchecker (thorough tier only)
+        mods = []
+        for f in files:
+            rel = os.path.relpath(f, LEAN_DIR)
+            if rel.endswith('.lean') and not rel.startswith('..'):
+                mods.append(rel[:-5].replace(os.sep, '.'))
+        rc2, out2 = sh('lake env leanchecker ' + ' '.join(mods), cwd=LEAN_DIR)
+        res['leanchecker'] = {'modules': mods, 'exit': rc2}
+        if rc2 != 0:
+            res['problems'].append('leanchecker rejects: ' + out2[-1500:])
     cur = None
     for m in re.finditer(r"^'(.+?)' (depends on axioms: \[([^\]]*)\]|does not depend on any axioms)", out, flags=re.M):
         name = m.group(1)
@@ -419,7 +430,9 @@ def finish(ctx, aud, level='proof', partial=(), assumptions=(), trusted=(), sear
     cov = {
         'obligations': max(nthm, 1),
         'discharged': discharged if not broken else min(discharged, max(nthm - 1, 0)),
-        'checker_cmd': 'cd lean && lake build OptiModel.Props.%s && lake env lean .audit/Audit_%s.lean' % (pid, pid),
+        'checker_cmd': 'cd lean && lake build OptiModel.Props.%s && lake env lean .audit/Audit_%s.lean' % (pid, pid)
+                       + (' && lake env leanchecker <modules> (exit %s)' % aud['leanchecker']['exit']
+                          if aud.get('leanchecker') else ''),
         'trusted_base': ['Lean 4.33.0 kernel', 'Mathlib v4.33.0', 'axioms: propext, Classical.choice, Quot.sound']
                         + list(trusted) +
                         ['hand-written model tied to /repo by the correspondence run below',
